@@ -251,9 +251,11 @@ func (r *c20Run) do(op []string) bool {
 		if ctrl := w.ctrl(i); ctrl != nil && !ctrl.dispatcher.Complete() {
 			r.expected++ // "immediately announce new torrents"
 		}
-	case "inc":
+	case "inc", "incbad":
 		// an honest remote peer connects for torrent i (the agent has it on disk): addIncomingConn adds the
 		// torrent when it has no control. The peer leaves again at once.
+		// incbad: the peer's bitfield is longer than the torrent — the dispatcher's AddPeer rejects the conn after
+		// addIncomingConn has created (and queued) the control; the scheduler closes the conn.
 		i, ok := tor(2)
 		if !ok {
 			return false
@@ -269,6 +271,9 @@ func (r *c20Run) do(op []string) bool {
 			panic(err)
 		}
 		bf, _ := bitset.New(uint(w.np)).MarshalBinary()
+		if op[1] == "incbad" {
+			bf, _ = bitset.New(uint(w.np + 1)).MarshalBinary()
+		}
 		nd := len(r.disps)
 		in := w.incoming(id, i, w.blobs[i].mi.InfoHash(), bf)
 		first = []string{in.res}
@@ -595,6 +600,7 @@ func TestVerif_C20Sched(t *testing.T) {
 		{{"op", "sat", "h0"}},
 		{{"op", "inc", "h0"}},
 		{{"op", "evict", "h0"}},
+		{{"op", "incbad", "h0"}},
 	}
 	if verifh.Thorough() {
 		letters = append(letters, [][]string{{"op", "aerr", "h0"}}, [][]string{{"op", "unsat", "h0"}}, [][]string{{"op", "req", "h1"}})
@@ -619,7 +625,7 @@ func TestVerif_C20Sched(t *testing.T) {
 	// (a2) every schedule to depth 4 over the events around completion, removal, eviction and re-request
 	core := [][][]string{
 		{{"op", "req", "h0"}}, {{"op", "finish", "h0"}}, {{"op", "notice", "h0", "g*"}}, {{"op", "rm", "h0"}},
-		{{"op", "adv", "5"}, {"op", "tick"}}, {{"op", "evict", "h0"}}, {{"op", "inc", "h0"}},
+		{{"op", "adv", "5"}, {"op", "tick"}}, {{"op", "evict", "h0"}}, {{"op", "inc", "h0"}}, {{"op", "incbad", "h0"}},
 	}
 	var rec2 func(prefix [][]string, d int)
 	rec2 = func(prefix [][]string, d int) {
@@ -722,7 +728,7 @@ func TestVerif_C20Sched(t *testing.T) {
 			case x < 96:
 				o = []string{"op", "unsat", h}
 			case x < 98:
-				o = []string{"op", "inc", h}
+				o = []string{"op", rnd.Pick("inc", "inc", "incbad"), h}
 			default:
 				o = []string{"op", "evict", h}
 			}
